@@ -11,7 +11,7 @@ after evaluate() returns.
 from __future__ import annotations
 
 import eqlmc  # noqa: F401
-from entity_query_language import (an, the, entity, let, symbolic_mode, rule_mode, Add, alternative, infer,
+from entity_query_language import (an, a, the, entity, set_of, let, symbolic_mode, rule_mode, Add, alternative, infer,
                                    MultipleSolutionFound, NoSolutionFound)
 from entity_query_language.symbolic import in_symbolic_mode, SymbolicExpression
 
@@ -64,6 +64,15 @@ def cases(tier, inst):
                             if tier == "quick" and dk == "d2" and consume == "next":
                                 continue
                             yield (amb, quant, ck, head, k, dk, consume)
+    # --- variables WITHOUT a domain described by field values (predicate form): their field constraints are built by the
+    #     library itself, in a symbolic block of its own, during the FIRST evaluation - which here runs under the ambient
+    #     mode; followed by a second evaluation under the same ambient mode
+    for amb in AMBIENTS:
+        for form in ND_FORMS:
+            for k in (1, 2, 3):
+                for quant in ("an", "the"):
+                    for consume in (("list", "next") if quant != "the" else ("call",)):
+                        yield ("nd", amb, form, k, quant, consume)
 
 
 def wspec_of(case):
@@ -126,7 +135,162 @@ def expected(case, world, inst):
     return ("rows", sorted(map(repr, vals)))
 
 
+# ---------------------------------------------------------------- no-domain predicate-form programs
+ND_FORMS = ("rule", "rule_pc", "rule_pf", "query_pc", "query_join", "rule_nested")
+_o = lambda i: ("@", "DO", i)      # noqa: E731
+ND_DO = ((("p", 1), ("q", 2)), (("p", 2), ("q", 2)), (("p", 1), ("q", 1)), (("p", 2), ("q", 1)), (("p", 3), ("q", 2)))
+ND_DH = ((("inner", _o(0)), ("n", 1)), (("inner", _o(1)), ("n", 2)), (("inner", _o(4)), ("n", 1)))
+ND_DC = ((("a", _o(0)), ("b", _o(2))), (("a", _o(1)), ("b", _o(3))), (("a", _o(4)), ("b", _o(3))), (("a", _o(4)), ("b", _o(2))))
+ND_WSPEC = (("DO", "Other", ND_DO), ("DH", "Holder", ND_DH), ("DC", "Made2", ND_DC))
+
+
+def nd_build(form, k, quant, inst):
+    """the query, built in its own block (its no-domain variables are not evaluated here)"""
+    two, one, kk = inst.v(2), inst.v(1), inst.v(k)
+    QF = {"an": an, "the": the}[quant]
+    if form in ("rule", "rule_pc", "rule_pf", "rule_nested"):
+        QR = infer if quant == "an" else the
+        with rule_mode():
+            ro, ri = W.Other(q=two), W.Other(q=one)
+            conds = [W.Holder(inner=ro, n=one), W.Made2(a=ro, b=ri)]
+            if form == "rule_pc":
+                conds.append(W.PEq(x=ri, k=kk))
+            if form == "rule_pf":
+                conds.append(W.p_eq(ri, kk))
+            if form == "rule_nested":
+                return QR(W.Made(a=a(ro), b=a(ri), c=W.Holder(inner=ri, n=kk)), *conds[:1])
+            return QR(W.Made(a=a(ro), b=a(ri)), *conds)
+    with symbolic_mode():
+        o = W.Other(q=two)
+        if form == "query_pc":
+            return QF(entity(o, W.PEq(x=o, k=kk)))
+        h = W.Holder(inner=o, n=kk)
+        return QF(set_of([o, h]))
+
+
+def nd_expected(form, k, world, inst):
+    two, one, kk = inst.v(2), inst.v(1), inst.v(k)
+    DO, DH, DC = world["DO"], world["DH"], world["DC"]
+    rows = []
+    if form in ("rule", "rule_pc", "rule_pf"):
+        for ro in DO:
+            for ri in DO:
+                if ro.q == two and ri.q == one and any(h.inner is ro and h.n == one for h in DH) \
+                        and any(m.a is ro and m.b is ri for m in DC):
+                    if form == "rule" or ri.p == kk:
+                        rows.append(("made", "Made", Q.norm(ro), Q.norm(ri), Q.norm(None)))
+    elif form == "rule_nested":
+        for ro in DO:
+            for ri in DO:
+                if ro.q == two and ri.q == one and any(h.inner is ro and h.n == one for h in DH):
+                    for h2 in DH:
+                        if h2.inner is ri and h2.n == kk:
+                            rows.append(("made", "Made", Q.norm(ro), Q.norm(ri), Q.norm(h2)))
+    elif form == "query_pc":
+        rows = [Q.norm(o) for o in DO if o.q == two and o.p == kk]
+    else:
+        rows = [("row", Q.norm(o), Q.norm(h)) for o in DO for h in DH if o.q == two and h.inner is o and h.n == kk]
+    return rows
+
+
+def nd_norm(form, r):
+    if form == "query_join":
+        try:
+            vals = list(r.values())
+            return ("row",) + tuple(Q.norm(v) for v in vals)
+        except Exception:
+            return ("symbolic", type(r).__name__)
+    if not isinstance(r, (W.Other, W.Made)):
+        return ("symbolic", type(r).__name__)
+    return Q.norm(r)
+
+
+def run_nd(case, inst):
+    _, amb, form, k, quant, consume = case
+
+    def body():
+        world = build_world(ND_WSPEC, inst)
+        rows = nd_expected(form, k, world, inst)
+        if quant == "the":
+            exp = ("NoSolution",) if not rows else (("value", rows[0]) if len(rows) == 1 else ("Multiple",))
+        else:
+            exp = ("rows", sorted(map(repr, rows)))
+        try:
+            q = nd_build(form, k, quant, inst)
+        except Exception as e:
+            return ("build", exc_obs(e)), exp, None
+        W.LOG.reset()
+        notes = []
+
+        def evaluate():
+            if quant == "the":
+                try:
+                    r = q.evaluate()
+                except MultipleSolutionFound:
+                    return ("Multiple",)
+                except NoSolutionFound:
+                    return ("NoSolution",)
+                return ("value", nd_norm(form, r))
+            if consume == "list":
+                got = list(q.evaluate())
+            else:
+                got, it = [], q.evaluate()
+                while True:
+                    try:
+                        got.append(next(it))
+                    except StopIteration:
+                        break
+            return ("rows", sorted(repr(nd_norm(form, r)) for r in got))
+
+        ctx = {"none": None, "query": symbolic_mode, "rule": rule_mode}[amb]
+        try:
+            if ctx is None:
+                got = [evaluate(), evaluate()]
+            else:
+                with ctx():
+                    got = [evaluate()]
+                    if not in_symbolic_mode():
+                        notes.append("ambient-mode-lost-after-evaluate")
+                    got.append(evaluate())
+        except Exception as e:
+            got = exc_obs(e)
+        if W.LOG.symbolic_seen:
+            notes.append(f"user-code-called-in-symbolic-mode:{W.LOG.symbolic_seen}")
+        return got, [exp, exp], notes
+
+    got, exp, notes = run_isolated(body)
+    ok = got == exp and not notes
+    res = {"ok": ok, "nontrivial": amb != "none" and exp[0] not in (("rows", []), ("NoSolution",)), "transitions": 2,
+           "tags": [f"ambient={amb}", f"quant={quant}", f"nd_form={form}", f"consume={consume}"],
+           "outcome": f"nd:{quant}:{exp[0][0]}:{len(exp[0][1]) if exp[0][0] == 'rows' else ''}"}
+    if not ok:
+        why = "mismatch" if got != exp else notes[0].split(":")[0]
+        res.update(sig=f"{why}/ambient={amb}/quant={quant}/nd={form}", obs=(got, notes), exp=(exp, []))
+    return res
+
+
+def describe_nd(case, inst):
+    _, amb, form, k, quant, consume = case
+    two, one, kk = inst.v(2), inst.v(1), inst.v(k)
+    QR = "infer" if quant == "an" else "the"
+    progs = {
+        "rule": f"with rule_mode(): q = {QR}(Made(a=a(ro := Other(q={two})), b=a(ri := Other(q={one}))), Holder(inner=ro, n={one}), Made2(a=ro, b=ri))",
+        "rule_pc": f"with rule_mode(): q = {QR}(Made(a=a(ro := Other(q={two})), b=a(ri := Other(q={one}))), Holder(inner=ro, n={one}), Made2(a=ro, b=ri), PEq(x=ri, k={kk}))",
+        "rule_pf": f"with rule_mode(): q = {QR}(Made(a=a(ro := Other(q={two})), b=a(ri := Other(q={one}))), Holder(inner=ro, n={one}), Made2(a=ro, b=ri), p_eq(ri, {kk}))",
+        "rule_nested": f"with rule_mode(): q = {QR}(Made(a=a(ro := Other(q={two})), b=a(ri := Other(q={one})), c=Holder(inner=ri, n={kk})), Holder(inner=ro, n={one}))",
+        "query_pc": f"with symbolic_mode(): o = Other(q={two}); q = {quant}(entity(o, PEq(x=o, k={kk})))",
+        "query_join": f"with symbolic_mode(): o = Other(q={two}); h = Holder(inner=o, n={kk}); q = {quant}(set_of([o, h]))",
+    }
+    amb_s = {"none": "", "query": "with symbolic_mode(): ", "rule": "with rule_mode(): "}[amb]
+    ev = "q.evaluate()" if quant == "the" else ("list(q.evaluate())" if consume == "list" else "next(it) ... until exhausted")
+    return (Q.up_world(ND_WSPEC, inst) + "\n# (all objects constructed outside any block: they are in the registry)\n"
+            + progs[form] + f"\n{amb_s}r1 = {ev}; r2 = {ev}"
+            + "\n# expected: both evaluations as with no ambient block; predicates run concretely; real instances")
+
+
 def run_case(case, inst):
+    if case[0] == "nd":
+        return run_nd(case, inst)
     amb, quant, ck, head, k, dk, consume = case
 
     def body():
@@ -198,6 +362,8 @@ def run_case(case, inst):
 
 
 def describe(case, inst):
+    if case[0] == "nd":
+        return describe_nd(case, inst)
     amb, quant, ck, head, k, dk, consume = case
     cond = Q.up_cond(CONDS[ck](k), inst)
     if head == "var":
